@@ -1891,8 +1891,17 @@ class Builder:
         )
 
         # SDK handles to result values (Qubit objects).
+        # With a single communication qubit and a post routine, every pair arrives in
+        # the communication qubit and is handed to the routine there, one pair after
+        # the other: give all pairs that one ID, as for a sequential request (a
+        # memory qubit per pair would be allocated but never used nor freed).
+        one_by_one = params.sequential or (
+            params.post_routine is not None
+            and self._hardware_config is not None
+            and self._hardware_config.comm_qubit_count == 1
+        )
         qubit_futures: List[Qubit] = self._get_qubit_futures(
-            params.number, params.sequential, ent_results_array
+            params.number, one_by_one, ent_results_array
         )
         assert all(isinstance(q, Qubit) for q in qubit_futures)
 
